@@ -4,7 +4,7 @@
 #  demo passes without the change; with it: builds, the whole existing suite passes (both feature sets), demo fails.
 # on success stores /verif/seeded/<ID>-<n>/{patch.diff,demo.rs,meta.json}
 ID=$1; N=$2
-SRC=/tmp/wt/$ID/out
+SRC=/tmp/wt/outs/$ID
 WT=/tmp/wt/confirm-$ID-$N
 LOG=/tmp/wt/confirm-$ID-$N.log
 exec > $LOG 2>&1
